@@ -130,6 +130,21 @@ func rangeSources(c *Ctx, v ssa.Value) map[ssa.Instruction]bool {
 			if b := eng.FreeVarBinding(x); b != nil {
 				walk(b, d+1)
 			}
+		case *ssa.Parameter:
+			// helper functions called per iteration: the parameter derives from the arguments at the call sites
+			fn := x.Parent()
+			idx := -1
+			for i, q := range fn.Params {
+				if q == x {
+					idx = i
+				}
+			}
+			for _, s := range c.P.CallSitesOf(fn) {
+				cc := s.Ins.(ssa.CallInstruction).Common()
+				if cc.StaticCallee() != nil && idx >= 0 && idx < len(cc.Args) {
+					walk(cc.Args[idx], d+1)
+				}
+			}
 		case *ssa.Lookup:
 			walk(x.X, d+1)
 			walk(x.Index, d+1)
@@ -201,15 +216,18 @@ func intersects(a, b map[ssa.Instruction]bool) bool {
 func ruleBind(c *Ctx, a *reloadAnchors) {
 	p := c.P
 	s := a.startFn
-	loops := eng.Loops(s)
+	sreg := c.NewRegion(s, 3, func(h *ssa.Function) bool {
+		return eng.PkgPathOf(h) != eng.Mod+"/"+mainPkg || (h.Signature.Recv() != nil && eng.TypeName(h.Signature.Recv().Type()) == a.lsType)
+	})
 	lsT := "(*" + a.lsType + ")."
 	nGo := 0
 	listenUses := map[*ssa.Call]int{}
-	for _, cl := range eng.Calls(s) {
+	for _, cl := range sreg.Calls() {
 		g, ok := cl.(*ssa.Go)
 		if !ok {
 			continue
 		}
+		loops := eng.Loops(g.Parent())
 		nGo++
 		key := fmt.Sprintf("%s:serve#%d", short(s), nGo)
 		var svcVal, lnVal ssa.Value
@@ -239,9 +257,12 @@ func ruleBind(c *Ctx, a *reloadAnchors) {
 		if eng.CalleeName(&g.Call) == "service.StreamServe" {
 			c.CheckAt("BIND", key+":stream-listener-for-stream-serving", g, strings.HasSuffix(eng.CalleeName(&lnCall.Call), "ListenStream"), "StreamServe is fed by something other than a stream listener")
 		}
-		// same iteration: the service is created in a loop, the listener in the same loop or one nested in it
+		// same iteration / activation: service, listener and go live in one function; when the service is created inside a loop of
+		// that function, the listener and the go are inside the same loop (the provenance check below covers the case where a
+		// helper is called once per configuration entry)
+		sameFn := svcCall.Parent() == g.Parent() && lnCall.Parent() == g.Parent()
 		ls := eng.InnermostLoop(loops, svcCall.Block())
-		okIter := ls != nil && ls.Body[lnCall.Block()] && ls.Body[g.Block()]
+		okIter := sameFn && (ls == nil || (ls.Body[lnCall.Block()] && ls.Body[g.Block()]))
 		c.CheckAt("BIND", key+":same-iteration", g, okIter, "the service and the listener served together are not created in the same iteration of the configuration loop (e.g. the service is created once outside the loop): keys of one entry would authenticate on another entry's listeners")
 		// cipher list of the service
 		var wc *ssa.Call
@@ -271,7 +292,7 @@ func ruleBind(c *Ctx, a *reloadAnchors) {
 			continue
 		}
 		lm := eng.InnermostLoop(loops, mk.Block())
-		c.CheckAt("NOSHARE", key+":key-list-created-per-iteration", mk, lm != nil && lm == ls, "the key list is not created in the same loop iteration as the service that uses it: several services would share one list")
+		c.CheckAt("NOSHARE", key+":key-list-created-per-iteration", mk, mk.Parent() == svcCall.Parent() && lm == ls, "the key list is not created in the same loop iteration as the service that uses it: several services would share one list")
 		// key material input
 		var keyInput ssa.Value
 		if eng.CalleeName(&mk.Call) == mainPkg+".newCipherListFromConfig" {
@@ -298,7 +319,7 @@ func ruleBind(c *Ctx, a *reloadAnchors) {
 		c.CheckAt("BIND", short(s)+":listener-served-once", lc, k == 1, fmt.Sprintf("one listener is served by %d goroutines", k))
 	}
 	// NOSHARE: every key-list creation result reaches exactly one WithCiphers
-	for _, cl := range eng.Calls(s) {
+	for _, cl := range sreg.Calls() {
 		call, ok := cl.(*ssa.Call)
 		if !ok {
 			continue
@@ -308,9 +329,9 @@ func ruleBind(c *Ctx, a *reloadAnchors) {
 			continue
 		}
 		uses := 0
-		for _, c2 := range eng.Calls(s) {
+		for _, c2 := range sreg.Calls() {
 			if wc, ok := c2.(*ssa.Call); ok && eng.CalleeName(&wc.Call) == "service.WithCiphers" {
-				if p.AnyFrom(wc.Call.Args[0], eng.Plain, func(v ssa.Value) bool { cc, _, ok := eng.AsResult(v); return ok && cc == call }) {
+				if p.AnyFrom(wc.Call.Args[0], deepF, func(v ssa.Value) bool { cc, _, ok := eng.AsResult(v); return ok && cc == call }) {
 					uses++
 				}
 			}
@@ -318,19 +339,18 @@ func ruleBind(c *Ctx, a *reloadAnchors) {
 		c.CheckAt("NOSHARE", short(s)+":"+n+":one-service-per-key-list", call, uses == 1, fmt.Sprintf("a key list reaches %d WithCiphers calls (must be exactly one)", uses))
 	}
 	// legacy map: each key is filed under the port of the same key element, and its entry is built from that element
-	for _, b := range s.Blocks {
-		for _, ins := range b.Instrs {
-			mu, ok := ins.(*ssa.MapUpdate)
-			if !ok || !strings.Contains(mu.Map.Type().String(), "container/list.List") {
-				continue
-			}
-			ksrc := rangeSources(c, mu.Key)
-			c.CheckAt("BIND", short(s)+":legacy-list-filed-under-its-own-port", mu, len(ksrc) > 0, "the legacy per-port list is not filed under the port of the key being processed")
+	sreg.Instrs(func(_ *ssa.Function, ins ssa.Instruction) {
+		mu, ok := ins.(*ssa.MapUpdate)
+		if !ok || !strings.Contains(mu.Map.Type().String(), "container/list.List") {
+			return
 		}
-	}
-	for _, cl := range eng.Calls(s) {
+		ksrc := rangeSources(c, mu.Key)
+		c.CheckAt("BIND", short(s)+":legacy-list-filed-under-its-own-port", mu, len(ksrc) > 0, "the legacy per-port list is not filed under the port of the key being processed")
+	})
+	dedupFn := p.Fn(mainPkg + ".newCipherListFromConfig")
+	for _, cl := range sreg.Calls() {
 		call, ok := cl.(*ssa.Call)
-		if !ok || eng.CalleeName(&call.Call) != "(*container/list.List).PushBack" {
+		if !ok || eng.CalleeName(&call.Call) != "(*container/list.List).PushBack" || call.Parent() == dedupFn {
 			continue
 		}
 		// the list pushed to was looked up with the port of the same element the entry is built from
